@@ -135,6 +135,7 @@ type Exec struct {
 	callSites     map[string][]string
 	topFrame      *Frame
 	curSkip       *bool
+	contextOnly   map[string]bool // unexported helpers whose only obligations are schema call-site assertions: checked where they are inlined
 	immutableKeys map[string]bool
 	steps         int
 	stepBudget    int
